@@ -1,7 +1,7 @@
 """C12 - listeners run by priority then registration order until propagation stops."""
 import ast
 
-from ..loader import AnalysisError, walk_no_nested, norm, is_self_attr, unparse
+from ..loader import ClassInfo, AnalysisError, walk_no_nested, norm, is_self_attr, unparse
 from .. import q
 
 STORE = "_listeners"
@@ -500,6 +500,45 @@ def run(ctx):
                 r.ok("%s: %s asked at dispatch time, not stored" % (fi.short, norm(c)[:60]))
     if n_q == 0:
         r.vacuous_ok = True
+
+    # ---------------------------------------------------------------- R10
+    r = ctx.rule("C12-R10", "NULL", "every event object can answer the dispatch loop's propagation test: each event class initialises, on every path of "
+                 "its constructor chain, the fields that the base class's propagation methods read (a constructor that does not chain to "
+                 "Event.__init__ makes the first is_propagation_stopped() raise AttributeError - no listener of that event is ever called)", reference=4)
+    ev_base = ctx.cls("clikit.api.event.event.Event")
+    need = sorted({n.attr for name_, m_ in ev_base.methods.items() if name_ != "__init__" for n in walk_no_nested(m_.node) if is_self_attr(n) and isinstance(n.ctx, ast.Load)})
+    ctx.require(need, "Event's methods read no field any more")
+
+    def must_assign(cls_, init, depth=0):
+        """fields assigned on every normal path through ``init`` (following super().__init__ / Base.__init__(self))"""
+        cfg_ = ctx.cfg(init)
+        out = set()
+        for n_ in cfg_.nodes:
+            if n_.kind != "stmt" or n_.ast is None:
+                continue
+            if not cfg_.post_dominated_by(cfg_.entry.id, {n_.id}):
+                continue
+            if isinstance(n_.ast, ast.Assign):
+                out |= {t.attr for t in n_.ast.targets if is_self_attr(t)}
+            for c in walk_no_nested(n_.ast):
+                if isinstance(c, ast.Call) and isinstance(c.func, ast.Attribute) and c.func.attr == "__init__" and depth < 5:
+                    for t in ctx.cg.site_for(init, c).targets:
+                        if t.name == "__init__" and t.cls is not None and t.cls is not cls_:
+                            out |= must_assign(t.cls, t, depth + 1)
+        return out
+
+    for c in [ev_base] + sorted(p.subclasses(ev_base, strict=True), key=lambda k: k.qualname):
+        init = next((k.methods["__init__"] for k in c.mro if isinstance(k, ClassInfo) and "__init__" in k.methods), None)
+        if init is None:
+            r.fail(list(c.methods.values())[0] if c.methods else ev_base.methods["__init__"], c.node, "%s has no constructor" % c.name, "%s is constructed without initialising %s" % (c.name, need))
+            continue
+        got = must_assign(init.cls, init)
+        missing = [f for f in need if f not in got]
+        if missing:
+            r.fail(init, init.node, "%s() leaves %s unset" % (c.name, ", ".join("self." + f for f in missing)), "%s.__init__ does not initialise %s on every path (it does not chain to the base constructor): "
+                   "dispatching a %s raises AttributeError at the first propagation test, before any listener is called" % (init.cls.name, ", ".join("self." + f for f in missing), c.name))
+        else:
+            r.ok("%s(): %s initialised on every path" % (c.name, ", ".join(need)))
     return ctx.results
 
 
